@@ -176,6 +176,12 @@ func (exec *Executor) execBinaryMathExpr(
 		return exec.returnVerboseError(err)
 	}
 
+	if f, ok := val.(float64); ok && (math.IsInf(f, 0) || math.IsNaN(f)) {
+		return exec.returnVerboseError(fmt.Errorf(
+			"%w: result of jsonpath operator %v is out of range", ErrVerbose, op,
+		))
+	}
+
 	next := node.Next()
 	if next == nil && found == nil {
 		return statusOK, nil
